@@ -21,6 +21,11 @@ WideKinds == {"int32", "int64", "uint32", "uint64", "float32"}
 AllKinds == Kinds \cup WideKinds \cup {"any"}
 Locs == {"path", "query", "header", "cookie", "body"}
 Modes == {"required", "optional", "default"}
+\* HTTP transport envelope only: "treq" = optional in the payload / result type (a pointer field), made Required inside the
+\* HTTP mapping alone (Params(func(){ Required(..) }) / Headers(func(){ Required(..) })): the transport demands what the type
+\* leaves open.  (Modes itself is shared with the gRPC envelope and stays as it is.)
+HModes == Modes \cup {"treq"}
+MustBePresent(a) == a.mode \in {"required", "treq"}
 Rules == {"none", "min", "max", "xmin", "xmax", "minlen", "maxlen", "enum", "pattern", "format", "cminlen", "cmaxlen",
           \* two rules on one attribute: both inclusive / both exclusive bounds, both lengths
           "range", "xrange", "lenrange"}
@@ -30,7 +35,9 @@ Nests == {"direct", "elem", "mapkey", "mapval", "alias", "nested",
           \* a map whose key type is a user type (alias) that appears nowhere else
           "mapkey_alias",
           \* the payload / result IS the value (Payload(Int), Payload(ArrayOf(String)), Result(MapOf(String, Int)) ...)
-          "whole", "whole_elem", "whole_mapval"}
+          "whole", "whole_elem", "whole_mapval",
+          \* a map of lists (query string only: qa1[k]=v1&qa1[k]=v2)
+          "mapval_elem"}
 Whole == {"whole", "whole_elem", "whole_mapval"}
 Deep == {"nested_mapkey", "nested_elem", "elem_nested", "mapval_nested", "mapkey_alias"}
 StrShapes == {"plain", "slash", "pcthex", "space", "uni", "plus"}
@@ -42,13 +49,19 @@ Absent == V("absent", 0, "plain", 0)
 Attr(k, l, m, r, ns) == [kind |-> k, loc |-> l, mode |-> m, rule |-> r, nest |-> ns]
 
 NumKinds == {"int", "uint", "float"} \cup WideKinds
+QueryMapNests == {"mapkey", "mapval", "mapval_elem", "whole_mapval"}
 FloatKinds == {"float", "float32"}
 WFAttr(a) ==
-  /\ (a.loc = "path" => a.mode = "required" /\ a.kind \in {"int", "uint", "float", "bool", "string"} \cup WideKinds /\ a.nest \in {"direct", "alias", "whole"})
+  \* (the payload attribute behind a path parameter may be optional or carry a default: the generated decoder still hands a
+  \*  plain value to the payload constructor, the payload field is a pointer)
+  /\ (a.loc = "path" => a.mode \in Modes /\ a.kind \in {"int", "uint", "float", "bool", "string"} \cup WideKinds /\ a.nest \in {"direct", "alias", "whole"})
   /\ (a.kind \in WideKinds => a.nest \in {"direct", "alias", "elem", "mapval", "whole"} /\ a.rule \in {"none", "min", "xmax"})
   /\ (a.loc = "cookie" => a.nest \in {"direct", "alias"} /\ a.kind # "bytes")
-  /\ (a.loc \in {"query", "header"} => a.nest \in {"direct", "alias", "elem", "whole", "whole_elem"} /\ a.kind # "bytes")
-  /\ (a.nest \in {"mapkey", "mapval", "nested"} \cup Deep => a.loc = "body")
+  /\ (a.loc \in {"query", "header"} => a.nest \in {"direct", "alias", "elem", "whole", "whole_elem"} \cup QueryMapNests /\ a.kind # "bytes")
+  \* map-valued query parameters: qa1[key]=value; the whole payload as the query string (MapParams()): key=value
+  /\ (a.nest \in QueryMapNests => a.loc \in {"query", "body"} /\ (a.nest = "mapval_elem" => a.loc = "query" /\ a.kind \notin WideKinds \cup {"any"}))
+  /\ (a.nest \in {"nested"} \cup Deep => a.loc = "body")
+  /\ (a.mode = "treq" => a.loc \in {"query", "header"} /\ a.nest \in {"direct", "alias"})
   /\ (a.nest \in {"mapkey", "nested_mapkey", "mapkey_alias"} => a.kind \in {"string", "int"})
   /\ (a.kind = "bytes" => a.nest \in {"direct", "whole"} /\ (a.nest = "whole" => a.loc = "body") /\ a.rule \in {"none", "minlen", "maxlen", "lenrange"})
   /\ (a.kind = "bool" => a.rule = "none")
@@ -60,10 +73,10 @@ WFAttr(a) ==
   /\ (a.rule \in {"cminlen", "cmaxlen"} => a.nest \in {"elem", "mapval", "whole_elem", "whole_mapval"})
   /\ (a.mode = "default" => a.nest \in {"direct", "alias"} /\ a.kind # "bytes")
   /\ (a.nest \in Whole => a.mode = "required" /\ a.kind \notin {"any"} /\ a.loc \in {"body", "query", "header", "path"})
-  /\ (a.nest \in {"whole_elem", "whole_mapval"} /\ a.loc # "body" => a.nest = "whole_elem" /\ a.loc \in {"query", "header"})
+  /\ (a.nest \in {"whole_elem", "whole_mapval"} /\ a.loc # "body" => (a.nest = "whole_elem" /\ a.loc \in {"query", "header"}) \/ (a.nest = "whole_mapval" /\ a.loc = "query"))
   \* a required non-pointer field cannot be told from its zero value on the Go side; nothing to exclude,
   \* the value space below only offers "absent" where Go can express it
-AttrSpace == {a \in [kind: AllKinds, loc: Locs, mode: Modes, rule: Rules, nest: Nests] : WFAttr(a)}
+AttrSpace == {a \in [kind: AllKinds, loc: Locs, mode: HModes, rule: Rules, nest: Nests] : WFAttr(a)}
 
 \* ---------------------------------------------------------------- value space
 \* numeric reading of a value for the range rules, doubled so that halves stay integers
@@ -105,9 +118,14 @@ ValsOf(a) ==
        ELSE {[v EXCEPT !.cn = c] : v \in leaf, c \in (IF a.nest = "mapkey" THEN {1} ELSE {1, 2})}
 
 \* can the caller leave the attribute unset?  (Go: pointer field, nil slice or nil map)
-CanBeAbsent(a) == a.mode = "optional" \/ (a.mode = "required" /\ a.nest \in {"elem", "mapkey", "mapval", "nested"} \cup Deep) \/ (a.mode = "required" /\ a.kind = "bytes")
-\* an empty string cannot be a path segment: the envelope does not send one
-PayloadVals(a) == {v \in ValsOf(a) : ~(a.loc = "path" /\ v.s = "empty") /\ (v.s = "huge" => a.loc = "body")} \cup (IF CanBeAbsent(a) /\ a.nest \notin Whole THEN {Absent} ELSE {})
+CanBeAbsent(a) == a.mode \in {"optional", "treq"} \/ (a.mode = "required" /\ a.nest \in {"elem", "mapkey", "mapval", "mapval_elem", "nested"} \cup Deep) \/ (a.mode = "required" /\ a.kind = "bytes")
+\* an empty string cannot be a path segment, and neither can "nothing": the envelope does not send one (the caller of a
+\* method with a path parameter supplies it, whatever the payload type says)
+PayloadVals(a) == {v \in ValsOf(a) : ~(a.loc = "path" /\ v.s = "empty") /\ (v.s = "huge" => a.loc = "body")} \cup (IF CanBeAbsent(a) /\ a.nest \notin Whole /\ a.loc # "path" THEN {Absent} ELSE {})
+\* what no generated encoder writes but any peer can send: the (last) object of a nested user type lacks its required inner
+\* attribute (s = "nofield"; cn entries, the last one broken).  HTTPTransport enumerates these on top of PayloadVals.
+NoFieldNests == {"nested", "elem_nested", "mapval_nested"}
+NoFieldVals(a) == IF a.nest \in NoFieldNests /\ a.loc = "body" /\ a.kind # "any" THEN {V(a.kind, 0, "nofield", IF a.nest = "nested" THEN 1 ELSE 2)} ELSE {}
 
 DefaultOf(a) == CASE a.kind = "int" -> V("int", 3, "plain", 1)
                   [] a.kind = "uint" -> V("uint", 3, "plain", 1)
@@ -151,8 +169,8 @@ RuleErr(a) ==
 \* does a value satisfy the attribute?  Constraints apply to present values; required means present.
 \* A container with no entries has no leaf to check (cn = 0).
 LeafChecked(a, v) == a.rule \in {"cminlen", "cmaxlen"} \/ a.nest \in {"direct", "alias", "nested", "whole"} \/ v.cn >= 1
-ValidAttr(a, v) == IF v = Absent THEN a.mode # "required" ELSE (LeafChecked(a, v) => RuleOK(a, v))
-ViolationOf(a, v) == IF v = Absent THEN "missing_field" ELSE RuleErr(a)
+ValidAttr(a, v) == IF v = Absent THEN ~MustBePresent(a) ELSE IF v.s = "nofield" THEN FALSE ELSE (LeafChecked(a, v) => RuleOK(a, v))
+ViolationOf(a, v) == IF v = Absent \/ v.s = "nofield" THEN "missing_field" ELSE RuleErr(a)
 \* every attribute shape of the envelope has at least one present value (a shape that could only be left unset would
 \* be enumerated, generated, compiled - and never exercised)
 ASSUME NoVacuousShape == \A a \in AttrSpace : PayloadVals(a) \ {Absent} # {}
